@@ -62,13 +62,20 @@ func (pp *PushPromise) Deserialize(fr *FrameHeader) error {
 }
 
 func (pp *PushPromise) Serialize(fr *FrameHeader) {
-	fr.payload = fr.payload[:0]
+	if pp.ended {
+		fr.SetFlags(
+			fr.Flags().Add(FlagEndHeaders))
+	}
 
-	// if pp.pad {
-	// 	fr.Flags().Add(FlagPadded)
-	// 	// TODO: Write padding flag
-	// }
-
+	// The payload starts with the promised stream id; without it the peer reads
+	// the first four octets of the header block as the id.
+	// https://httpwg.org/specs/rfc7540.html#rfc.section.6.6
+	fr.payload = http2utils.AppendUint32Bytes(fr.payload[:0], pp.stream&(1<<31-1))
 	fr.payload = append(fr.payload, pp.header...)
-	// TODO: write padding
+
+	if pp.pad {
+		fr.SetFlags(
+			fr.Flags().Add(FlagPadded))
+		fr.payload = http2utils.AddPadding(fr.payload)
+	}
 }
